@@ -102,11 +102,17 @@ func (u *memoryManagementUnit) fetchCacheLine(addr int32) []int8 {
 }
 
 func (u *memoryManagementUnit) pushLineToL1D(addr comp.AlignedAddress, line []int8) {
+	// The line that is displaced when the cache is full is the least recently
+	// used one: it is the one that has to be written back
+	victim := addr
+	if lines := u.l1d.Lines(); len(lines) != 0 {
+		victim = lines[len(lines)-1].Boundary[0]
+	}
 	evicted := u.l1d.PushLine(addr, line)
 	if len(evicted) == 0 {
 		return
 	}
-	u.writeToMemory(addr, line)
+	u.writeToMemory(victim, evicted)
 }
 
 func (u *memoryManagementUnit) writeToL1D(addr int32, data []int8) {
